@@ -1,6 +1,8 @@
 """C10 - paging a collection yields every item exactly once, in order, and terminates."""
 import itertools
 
+import netgen
+import runner
 from common import Case, list_tokens
 from runner import Batch, Spec
 
@@ -42,18 +44,24 @@ def mk_pages(sizes, rng=None, ordered=False, fail_at=None, wrong_key_at=None, si
 
 class C10(Spec):
     pid = "C10"
-    groups = ["vpub"]
+    groups = ["vpub", "vnet"]
+    no_compare_ops = ("net",)
     title = "Paging a collection yields every item exactly once, in order, and terminates"
-    oracle_filter = {"harvest_equals_model"}
+    oracle_filter = {"harvest_equals_model", "results_equal_model", "well_formed_result"}
     rule = ("page chains built as embedded Collection/OrderedCollection(+Page) documents: <= 12 pages of sizes 0..5 (runs of 0..5 "
             "empty pages in every position), items under the right key / the wrong key / absent / a single promoted value, the chain "
             "ending normally or in a reference that fails to load; then <= 8 requests of sizes 0..7 chained through the returned "
             "continuation with a first offset 0..6. Every delivered item is tagged with its global index. Exhaustive part: all chains "
             "of <= 4 pages with sizes <= 2 x all request sequences of <= 3 requests with sizes <= 3 (quick), <= 5 pages / <= 4 requests "
-            "(thorough). non-trivial = at least 2 pages and 2 requests and one item delivered.")
-    assumptions = ["remote (by-URL) and cyclic page chains are served by the loopback simulator in the C02/C03 checks; here pages "
-                   "are embedded, a failing page is a reference with an unsupported scheme (no network needed)",
-                   "load (NewCollection = fetch + parse) is an oracle in the theorems: any page graph, cycles included"]
+            "(thorough). REMOTE chains on the loopback TLS simulator: collections whose first/next are URLs (or embedded pages, mixed), "
+            "on one or several hosts, linear, CYCLIC (next points back at an earlier page: an endless sequence), endlessly EMPTY "
+            "(cycles of empty pages), BROKEN (404, a document that is not a collection, a dead host, an unparseable reference), with "
+            "junk elements; pub.New(url) then Harvest through the continuation for <= 6 requests: deliveries and continuation flags "
+            "equal Paging.remote_requests = Collection.harvest over the page graph the simulator serves. "
+            "non-trivial = at least 2 pages and 2 requests and one item delivered.")
+    assumptions = ["load (NewCollection = fetch + parse) is an oracle in the theorems: any page graph, cycles included; in the remote runs it "
+                   "is client.FetchUnknown against the simulator, modelled by Client.fetch_unknown from a cold cache (results do not "
+                   "depend on the cache: C03)"]
 
     def rand_case(self, rng):
         n = rng.randint(1, 12)
@@ -89,14 +97,87 @@ class C10(Spec):
 
     def nontrivial(self, case, res):
         m = case.meta
+        if case.op == "net":
+            return len(m["sizes"]) >= 2 and len(m["amounts"]) >= 2 and sum(m["sizes"]) > 0
         return len(m["pages"]) >= 2 and len(m["amounts"]) >= 2 and any(x > 0 for x in res["impl"][1:2])
 
     def shrink(self, case):
         m = case.meta
+        if case.op == "net":
+            return
         for i in range(len(m["amounts"])):
             yield hcase(m["pages"], m["start"], m["amounts"][:i] + m["amounts"][i + 1:])
 
+    def remote_world(self, rng, base):
+        """a page graph served by URL; items are embedded notes titled t<N> in global order"""
+        w = netgen.World(base, 128)
+        n = rng.randint(1, 7)
+        ordered = rng.random() < 0.5
+        shape = rng.choice(["linear", "linear", "cyclic", "cyclic", "empty-cycle", "broken", "mixed"])
+        sizes = [rng.choice((0, 0, 1, 2, 3, 5)) for _ in range(n)]
+        if shape == "empty-cycle":
+            sizes = [rng.choice((0, 0, 0, 2)) for _ in range(n)]
+            sizes[-1] = 0
+        urls = [w.url(rng.randrange(3) if rng.random() < 0.3 else 0, "/page%d" % i) for i in range(n)]
+        tag = itertools.count(1)
+        docs = []
+        for i in range(n):
+            top = (i == 0)
+            kind = ("OrderedCollection" if ordered else "Collection") if top else ("OrderedCollectionPage" if ordered else "CollectionPage")
+            items = []
+            for _ in range(sizes[i]):
+                if rng.random() < 0.06:
+                    items.append(rng.choice([5, True, {"type": "Nonsense"}, {"name": "t0"}]))
+                else:
+                    items.append({"type": "Note", "name": "t%d" % next(tag), "content": "x"})
+            d = {"type": kind}
+            if sizes[i] > 0 or rng.random() < 0.5:
+                d["orderedItems" if ordered else "items"] = items if not (len(items) == 1 and rng.random() < 0.2) else items[0]
+            if rng.random() < 0.5:
+                d["id"] = urls[i]
+            if rng.random() < 0.3:
+                d["totalItems"] = sum(sizes)
+            docs.append(d)
+        nextkey = lambda i: "first" if i == 0 else "next"
+        for i in range(n):
+            if i + 1 < n:
+                docs[i][nextkey(i)] = urls[i + 1]
+        last = n - 1
+        if shape in ("cyclic", "empty-cycle"):
+            docs[last][nextkey(last)] = urls[rng.randrange(n)] if n > 1 or shape == "cyclic" else urls[0]
+        elif shape == "broken":
+            bad = rng.choice(["https://%s%s/missing" % (w.host(0), w.prefix), "https://%s%s/notcoll" % (w.host(1), w.prefix),
+                              "https://127.0.0.77:1/dead", "%zz", "gopher://x.invalid/", 7])
+            docs[rng.randrange(n)][nextkey(rng.randrange(n))] = bad
+            w.serve("https://%s%s/notcoll" % (w.host(1), w.prefix), netgen.ok_json({"type": "Note", "name": "not a collection"}))
+            w.register_strings(bad)
+        # embed some pages instead of referring to them (mixed chains)
+        embed = set()
+        if shape == "mixed":
+            embed = {i for i in range(1, n) if rng.random() < 0.5}
+        for i in range(n - 1, 0, -1):
+            if i in embed:
+                d = dict(docs[i])
+                d.pop("id", None)
+                docs[i - 1][nextkey(i - 1)] = d
+        for i in range(n):
+            if i not in embed:
+                w.register_strings(docs[i])
+                w.serve(urls[i], netgen.ok_json(docs[i]))
+        amounts = [rng.randint(1, 7) for _ in range(rng.randint(1, 6))]
+        if rng.random() < 0.15:
+            amounts = [rng.choice((10, 25))]
+        w.paging(urls[0], amounts)
+        w.meta.update({"shape": shape, "sizes": sizes, "amounts": amounts})
+        return w
+
     def extra_checks(self, scratch, binary, rng, tier, report):
+        base = netgen.pick_port_base(rng)
+        cases = [self.remote_world(rng, base).case() for _ in range(250 if tier == "quick" else 8000)]
+        b = Batch("c10-remote", cases, config="[network]\ntimeout_seconds = 2\n", env={"VERIF_SIM_PORT_BASE": str(base)}, timeout=900,
+                  correspondence="pub.New(url) + Harvest over pages fetched from the simulator == Paging.remote_requests")
+        b.parallel = False
+        runner.run_batches(self, scratch, binary, [b], report)
         report.extra["exhaustive"] = True
         report.extra["exhaustive_scope"] = "chains <= %d pages (sizes 0..2) x <= %d requests (sizes 0,1,3)" % ((4, 3) if tier == "quick" else (5, 4))
 
